@@ -138,11 +138,31 @@ func verifyLifecycle(t *rapid.T, p protocol.Protocol, ns string, steps []lifecyc
 		if (s.typ == "create" || s.typ == "recover") && originCanon(op.AnchorOrigin) != originCanon(s.origin) {
 			t.Fatalf("C08 step %d: anchor origin %s want %s", i, originCanon(op.AnchorOrigin), originCanon(s.origin))
 		}
+		// the reveal value answers the commitment installed by the predecessor on the same chain
+		if i > 0 {
+			rv, err := stack.Parser.GetRevealValue(s.req)
+			if err != nil {
+				t.Fatalf("C08 step %d: GetRevealValue: %v", i, err)
+			}
+			derived, err := commitment.GetCommitmentFromRevealValue(rv)
+			wantC := steps[i-1].recovC
+			if s.typ == "update" {
+				wantC = steps[i-1].updateC
+			}
+			if err != nil || derived != wantC {
+				t.Fatalf("C08 step %d (%s): reveal value maps to commitment %q (%v), the state holds %q", i, s.typ, derived, err, wantC)
+			}
+		}
 		m := anchorMeta{Time: uint64(10 + i), Number: uint64(i), Canonical: fmt.Sprint("c", i)}
 		if s.from != 0 || s.until != 0 {
-			m.Time = uint64(s.from) // anchored inside the requested window
-			if s.from == 0 {
-				m.Time = uint64(s.until)
+			// anchored inside the requested window: at its first or at its last moment
+			first, last := s.from, s.until
+			if last == 0 {
+				last = s.from + int64(p.MaxOperationTimeDelta)
+			}
+			m.Time = uint64(last)
+			if rapid.Bool().Draw(t, "anchorAtStart") {
+				m.Time = uint64(first)
 			}
 		}
 		a1 := anchoredBytes(s.typ, s.req, suffix, m)
@@ -175,11 +195,20 @@ func verifyLifecycle(t *rapid.T, p protocol.Protocol, ns string, steps []lifecyc
 func genC08Protocol(t *rapid.T, alg uint) protocol.Protocol {
 	p := wideProtocol()
 	p.MultihashAlgorithms = []uint{alg}
-	if rapid.Bool().Draw(t, "bothAlgs") {
+	switch rapid.IntRange(0, 2).Draw(t, "bothAlgs") {
+	case 1:
 		p.MultihashAlgorithms = []uint{alg, 37 - alg}
+	case 2:
+		p.MultihashAlgorithms = []uint{37 - alg, alg}
 	}
-	p.MaxOperationTimeDelta = 600
+	p.MaxOperationTimeDelta = rapid.SampledFrom([]uint64{0, 5, 600}).Draw(t, "timeDelta")
 	return p
+}
+
+// stepAlg draws the hash algorithm a lifecycle step uses for the hashes it creates (a DID may migrate between the
+// configured algorithms; the reveal value always answers the commitment with that commitment's algorithm).
+func stepAlg(t *rapid.T, p protocol.Protocol) uint {
+	return rapid.SampledFrom(p.MultihashAlgorithms).Draw(t, "stepAlg")
 }
 
 // genUpdatePatches draws update patch values: remove / add with overlaps (the client's documented order: removes first).
@@ -299,6 +328,7 @@ func TestC08_Builders(t *testing.T) {
 		}
 
 		cur := deepCopyValue(doc).(map[string]interface{})
+		updAlg, recAlg := alg, alg // algorithm each current commitment was made with
 		recDone := false
 		phases := rapid.IntRange(0, 2).Draw(t, "updatesBefore")
 		total := phases + 1 + rapid.IntRange(0, 2).Draw(t, "updatesAfter")
@@ -306,11 +336,12 @@ func TestC08_Builders(t *testing.T) {
 			if i == phases && !recDone {
 				// recover
 				recDone = true
+				a := stepAlg(t, p)
 				nr, nu := key("nextRecovery"), key("nextUpdate")
-				if nr.Commitment(alg) == rec.Commitment(alg) {
+				if nr.Commitment(a) == rec.Commitment(a) {
 					nr = otherKey(t, rec)
 				}
-				if nu.Commitment(alg) == nr.Commitment(alg) {
+				if nu.Commitment(a) == nr.Commitment(a) {
 					nu = otherKey(t, nr)
 				}
 				if nr.Type != rec.Type {
@@ -329,20 +360,24 @@ func TestC08_Builders(t *testing.T) {
 					}
 				}
 				ri := &client.RecoverRequestInfo{DidSuffix: suffix, RecoveryKey: libJWKOf(t, rec), OpaqueDocument: refJCS(ndoc),
-					RecoveryCommitment: libCommitment(t, nr, alg), UpdateCommitment: libCommitment(t, nu, alg), AnchorOrigin: rorigin,
-					AnchorFrom: from, AnchorUntil: until, MultihashCode: alg, Signer: signerOf(rec), RevealValue: rec.Reveal(alg)}
+					RecoveryCommitment: libCommitment(t, nr, a), UpdateCommitment: libCommitment(t, nu, a), AnchorOrigin: rorigin,
+					AnchorFrom: from, AnchorUntil: until, MultihashCode: a, Signer: signerOf(rec), RevealValue: rec.Reveal(recAlg)}
 				rr, err := client.NewRecoverRequest(ri)
 				if err != nil {
 					t.Fatalf("C08 NewRecoverRequest refused valid input: %v", err)
 				}
-				steps = append(steps, lifecycleStep{typ: "recover", req: rr, doc: ndoc, updateC: nu.Commitment(alg), recovC: nr.Commitment(alg), origin: rorigin, from: from, until: until})
+				steps = append(steps, lifecycleStep{typ: "recover", req: rr, doc: ndoc, updateC: nu.Commitment(a), recovC: nr.Commitment(a), origin: rorigin, from: from, until: until})
+				if a != recAlg {
+					labels = append(labels, "algorithm-migration")
+				}
 				// refusal: next recovery commitment is the signing key's own
 				badR := *ri
-				badR.RecoveryCommitment = libCommitment(t, rec, alg)
+				badR.RecoveryCommitment = libCommitment(t, rec, a)
 				if _, err := client.NewRecoverRequest(&badR); err == nil {
 					t.Fatalf("C08 NewRecoverRequest accepted re-use of the recovery key")
 				}
 				rec, upd, cur = nr, nu, deepCopyValue(ndoc).(map[string]interface{})
+				updAlg, recAlg = a, a
 				continue
 			}
 			// update
@@ -350,8 +385,9 @@ func TestC08_Builders(t *testing.T) {
 			if overlap {
 				overlapSeen = true
 			}
+			a := stepAlg(t, p)
 			next := key("nextUpdate")
-			if next.Commitment(alg) == upd.Commitment(alg) {
+			if next.Commitment(a) == upd.Commitment(a) {
 				next = otherKey(t, upd)
 			}
 			var lps []patch.Patch
@@ -365,8 +401,8 @@ func TestC08_Builders(t *testing.T) {
 					uuntil = ufrom + int64(rapid.IntRange(0, 50).Draw(t, "ulen"))
 				}
 			}
-			ui := &client.UpdateRequestInfo{DidSuffix: suffix, Patches: lps, UpdateCommitment: libCommitment(t, next, alg), UpdateKey: libJWKOf(t, upd),
-				MultihashCode: alg, Signer: signerOf(upd), RevealValue: upd.Reveal(alg), AnchorFrom: ufrom, AnchorUntil: uuntil}
+			ui := &client.UpdateRequestInfo{DidSuffix: suffix, Patches: lps, UpdateCommitment: libCommitment(t, next, a), UpdateKey: libJWKOf(t, upd),
+				MultihashCode: a, Signer: signerOf(upd), RevealValue: upd.Reveal(updAlg), AnchorFrom: ufrom, AnchorUntil: uuntil}
 			ur, err := client.NewUpdateRequest(ui)
 			if err != nil {
 				t.Fatalf("C08 NewUpdateRequest refused valid input: %v", err)
@@ -375,13 +411,16 @@ func TestC08_Builders(t *testing.T) {
 			if err != nil {
 				t.Fatalf("harness: %v", err)
 			}
-			steps = append(steps, lifecycleStep{typ: "update", req: ur, doc: ndoc, updateC: next.Commitment(alg), recovC: rec.Commitment(alg), from: ufrom, until: uuntil})
+			steps = append(steps, lifecycleStep{typ: "update", req: ur, doc: ndoc, updateC: next.Commitment(a), recovC: rec.Commitment(recAlg), from: ufrom, until: uuntil})
+			if a != updAlg {
+				labels = append(labels, "algorithm-migration")
+			}
 			badU := *ui
-			badU.UpdateCommitment = libCommitment(t, upd, alg)
+			badU.UpdateCommitment = libCommitment(t, upd, a)
 			if _, err := client.NewUpdateRequest(&badU); err == nil {
 				t.Fatalf("C08 NewUpdateRequest accepted re-use of the update key")
 			}
-			upd, cur = next, ndoc
+			upd, cur, updAlg = next, ndoc, a
 		}
 		// deactivate
 		dfrom, duntil := int64(0), int64(0)
@@ -391,7 +430,7 @@ func TestC08_Builders(t *testing.T) {
 				dfrom = int64(rapid.IntRange(1, int(duntil)).Draw(t, "dfromv"))
 			}
 		}
-		dr, err := client.NewDeactivateRequest(&client.DeactivateRequestInfo{DidSuffix: suffix, RecoveryKey: libJWKOf(t, rec), Signer: signerOf(rec), RevealValue: rec.Reveal(alg),
+		dr, err := client.NewDeactivateRequest(&client.DeactivateRequestInfo{DidSuffix: suffix, RecoveryKey: libJWKOf(t, rec), Signer: signerOf(rec), RevealValue: rec.Reveal(recAlg),
 			AnchorFrom: dfrom, AnchorUntil: duntil})
 		if err != nil {
 			t.Fatalf("C08 NewDeactivateRequest refused valid input: %v", err)
@@ -553,6 +592,8 @@ func TestC08_SidetreeClient(t *testing.T) {
 		did := "did:sidetree:" + refHash(reqVal["suffixData"], p.MultihashAlgorithms[0])
 
 		cur := deepCopyValue(doc).(map[string]interface{})
+		updAlg, recAlg := alg, alg
+		migrated := false
 		recDone := false
 		phases := rapid.IntRange(0, 2).Draw(t, "updatesBefore")
 		total := phases + 1 + rapid.IntRange(0, 1).Draw(t, "updatesAfter")
@@ -560,19 +601,21 @@ func TestC08_SidetreeClient(t *testing.T) {
 			n0 := len(captured)
 			if i == phases && !recDone {
 				recDone = true
+				a := stepAlg(t, p)
 				nr, nu := key("nextRecovery"), key("nextUpdate")
-				if nr.Commitment(alg) == rec.Commitment(alg) {
+				if nr.Commitment(a) == rec.Commitment(a) {
 					nr = otherKey(t, rec)
 				}
-				if nu.Commitment(alg) == nr.Commitment(alg) {
+				if nu.Commitment(a) == nr.Commitment(a) {
 					nu = otherKey(t, nr)
 				}
+				migrated = migrated || a != recAlg
 				if nr.Type != rec.Type {
 					typeChange = true
 				}
 				rpks, rwant := genClientKeys(t, genUniqueIDs(t, 1, 2, "recKeyID"))
 				ropts := []recovery.Option{recovery.WithNextRecoveryPublicKey(nr.Public()), recovery.WithNextUpdatePublicKey(nu.Public()),
-					recovery.WithSigner(signerOf(rec)), recovery.WithOperationCommitment(rec.Commitment(alg)), recovery.WithMultiHashAlgorithm(alg)}
+					recovery.WithSigner(signerOf(rec)), recovery.WithOperationCommitment(rec.Commitment(recAlg)), recovery.WithMultiHashAlgorithm(a)}
 				for j := range rpks {
 					ropts = append(ropts, recovery.WithPublicKey(&rpks[j]))
 				}
@@ -585,16 +628,19 @@ func TestC08_SidetreeClient(t *testing.T) {
 					t.Fatalf("C08 RecoverDID refused valid input: %v", err)
 				}
 				ndoc := map[string]interface{}{"publicKey": rwant}
-				steps = append(steps, lifecycleStep{typ: "recover", req: captured[n0], doc: ndoc, updateC: nu.Commitment(alg), recovC: nr.Commitment(alg), origin: rorigin})
+				steps = append(steps, lifecycleStep{typ: "recover", req: captured[n0], doc: ndoc, updateC: nu.Commitment(a), recovC: nr.Commitment(a), origin: rorigin})
 				rec, upd, cur = nr, nu, deepCopyValue(ndoc).(map[string]interface{})
+				updAlg, recAlg = a, a
 				continue
 			}
+			a := stepAlg(t, p)
 			next := key("nextUpdate")
-			if next.Commitment(alg) == upd.Commitment(alg) {
+			if next.Commitment(a) == upd.Commitment(a) {
 				next = otherKey(t, upd)
 			}
+			migrated = migrated || a != updAlg
 			uopts := []update.Option{update.WithNextUpdatePublicKey(next.Public()), update.WithSigner(signerOf(upd)),
-				update.WithOperationCommitment(upd.Commitment(alg)), update.WithMultiHashAlgorithm(alg)}
+				update.WithOperationCommitment(upd.Commitment(updAlg)), update.WithMultiHashAlgorithm(a)}
 			// the client's patch order: remove aka, remove keys, remove services, add aka, add services, add keys
 			var vals []interface{}
 			rmIDs := genIDsNear(t, idsOf(cur["publicKey"]), 0, 2, "rmKey")
@@ -660,11 +706,11 @@ func TestC08_SidetreeClient(t *testing.T) {
 			if err != nil {
 				t.Fatalf("harness: %v", err)
 			}
-			steps = append(steps, lifecycleStep{typ: "update", req: captured[n0], doc: ndoc, updateC: next.Commitment(alg), recovC: rec.Commitment(alg)})
-			upd, cur = next, ndoc
+			steps = append(steps, lifecycleStep{typ: "update", req: captured[n0], doc: ndoc, updateC: next.Commitment(a), recovC: rec.Commitment(recAlg)})
+			upd, cur, updAlg = next, ndoc, a
 		}
 		n0 := len(captured)
-		if err := c.DeactivateDID(did, deactivate.WithSigner(signerOf(rec)), deactivate.WithOperationCommitment(rec.Commitment(alg))); err != nil {
+		if err := c.DeactivateDID(did, deactivate.WithSigner(signerOf(rec)), deactivate.WithOperationCommitment(rec.Commitment(recAlg))); err != nil {
 			t.Fatalf("C08 DeactivateDID refused valid input: %v", err)
 		}
 		steps = append(steps, lifecycleStep{typ: "deactivate", req: captured[n0], doc: map[string]interface{}{}})
@@ -674,6 +720,9 @@ func TestC08_SidetreeClient(t *testing.T) {
 			kinds += s.typ[:1]
 		}
 		labels := []string{"sidetree-client", "lifecycle-" + kinds, fmt.Sprintf("alg-%d", alg)}
+		if migrated {
+			labels = append(labels, "algorithm-migration")
+		}
 		if overlapSeen {
 			labels = append(labels, "update-remove+add-same-id")
 		}
